@@ -1,0 +1,112 @@
+//go:build verif
+
+// Contracts for package dict, read by /verif's verifier (fovc).  Comment-only.
+// A Dict is a reference to a Go map; has(m,k) / m[k] are the finite-map view.  Map iteration order is
+// unspecified: Keys/Values/KVs are specified up to order (each entry exactly once), with ghost
+// witnesses pos (entry -> index in the result).
+
+package dict
+
+//@ mode slices=heap strings=smt
+
+//@ func New
+//@   props C14 C05
+//@   modifies maps
+//@   panics never
+//@   ensures empty: forall k K :: !has(result.Fdict, k)
+//@   ensures fresh: result.Fdict != 0 && result.Fdict >= old(next) && result.Fdict < next
+//@   ensures others: mapsframe()
+
+//@ func Add
+//@   props C14 C05
+//@   modifies maps
+//@   panics iff d.Fdict == 0
+//@   ensures added: has(d.Fdict, key) && d.Fdict[key] == v
+//@   ensures rest: forall k K :: k != key ==> has(d.Fdict, k) == old(has(d.Fdict, k)) && d.Fdict[k] == old(d.Fdict[k])
+//@   ensures others: mapsframe_except(d.Fdict)
+
+//@ func ContainsKey
+//@   props C14 C05
+//@   panics never
+//@   returns has(d.Fdict, key)
+//@   ensures others: mapsframe()
+
+//@ func TryFind
+//@   props C14 C05
+//@   panics never
+//@   ensures found: result.E1 == has(d.Fdict, key)
+//@   ensures value: has(d.Fdict, key) ==> result.E0 == d.Fdict[key]
+//@   ensures others: mapsframe()
+
+//@ func Item
+//@   props C14 C05
+//@   panics never
+//@   ensures value: has(d.Fdict, key) ==> result == d.Fdict[key]
+//@   ensures others: mapsframe()
+
+//@ func KVs
+//@   props C14 C05
+//@   ghost pos map[K]int
+//@   panics never
+//@   ensures each: forall k K :: has(d.Fdict, k) ==> 0 <= pos[k] && pos[k] < len(result) && result[pos[k]].E0 == k && result[pos[k]].E1 == d.Fdict[k]
+//@   ensures once: forall i int :: 0 <= i && i < len(result) ==> has(d.Fdict, result[i].E0) && pos[result[i].E0] == i
+//@   ensures others: mapsframe()
+//@   ensures frame: frame()
+//@   loop 0:
+//@     invariant each: forall k K :: visited(k) ==> 0 <= pos[k] && pos[k] < len(res) && res[pos[k]].E0 == k && res[pos[k]].E1 == d.Fdict[k]
+//@     invariant once: forall i int :: 0 <= i && i < len(res) ==> visited(res[i].E0) && pos[res[i].E0] == i
+//@     invariant fresh: fresh(res)
+//@     invariant frame: frame()
+//@   at before call append#0: pos[k] = len(res)
+
+//@ func Keys
+//@   props C14 C05
+//@   ghost pos map[K]int
+//@   panics never
+//@   ensures each: forall k K :: has(d.Fdict, k) ==> 0 <= pos[k] && pos[k] < len(result) && result[pos[k]] == k
+//@   ensures once: forall i int :: 0 <= i && i < len(result) ==> has(d.Fdict, result[i]) && pos[result[i]] == i
+//@   ensures others: mapsframe()
+//@   ensures frame: frame()
+//@   loop 0:
+//@     invariant each: forall k K :: visited(k) ==> 0 <= pos[k] && pos[k] < len(res) && res[pos[k]] == k
+//@     invariant once: forall i int :: 0 <= i && i < len(res) ==> visited(res[i]) && pos[res[i]] == i
+//@     invariant fresh: fresh(res)
+//@     invariant frame: frame()
+//@   at before call append#0: pos[k] = len(res)
+
+//@ func Values
+//@   props C14 C05
+//@   ghost pos map[K]int      -- pos[k]: index in the result of the value of key k
+//@   ghost key map[int]K      -- key[i]: the key whose value is result[i]
+//@   panics never
+//@   ensures each: forall k K :: has(d.Fdict, k) ==> 0 <= pos[k] && pos[k] < len(result) && result[pos[k]] == d.Fdict[k]
+//@   ensures once: forall i int :: 0 <= i && i < len(result) ==> has(d.Fdict, key[i]) && pos[key[i]] == i
+//@   ensures others: mapsframe()
+//@   ensures frame: frame()
+//@   loop 0:
+//@     invariant each: forall k K :: visited(k) ==> 0 <= pos[k] && pos[k] < len(res) && res[pos[k]] == d.Fdict[k]
+//@     invariant once: forall i int :: 0 <= i && i < len(res) ==> visited(key[i]) && pos[key[i]] == i
+//@     invariant fresh: fresh(res)
+//@     invariant frame: frame()
+//@   at before call append#0: pos[curkey] = len(res)
+//@   at before call append#0: key[len(res)] = curkey
+
+//@ func ToDict
+//@   props C14 C05
+//@   modifies maps
+//@   ghost last map[K]int      -- last[k]: the last index of ss carrying key k
+//@   panics never
+//@   ensures keys: forall k K :: has(result.Fdict, k) ==> 0 <= last[k] && last[k] < len(ss) && old(ss[last[k]]).E0 == k && result.Fdict[k] == old(ss[last[k]]).E1
+//@   ensures last-wins: forall k K, j int :: has(result.Fdict, k) && last[k] < j && j < len(ss) ==> old(ss[j]).E0 != k
+//@   ensures all-present: forall j int :: 0 <= j && j < len(ss) ==> has(result.Fdict, old(ss[j]).E0)
+//@   ensures fresh: result.Fdict != 0 && result.Fdict >= old(next)
+//@   ensures others: mapsframe()
+//@   ensures frame: frame()
+//@   loop 0 index i:
+//@     invariant ref: dic.Fdict != 0 && dic.Fdict >= old(next) && dic.Fdict < next
+//@     invariant keys: forall k K :: has(dic.Fdict, k) ==> 0 <= last[k] && last[k] < i && old(ss[last[k]]).E0 == k && dic.Fdict[k] == old(ss[last[k]]).E1
+//@     invariant last-wins: forall k K, j int :: has(dic.Fdict, k) && last[k] < j && j < i ==> old(ss[j]).E0 != k
+//@     invariant all-present: forall j int :: 0 <= j && j < i ==> has(dic.Fdict, old(ss[j]).E0)
+//@     invariant others: mapsframe()
+//@     invariant frame: frame()
+//@   at before call Add#0: last[k] = i
